@@ -62,6 +62,7 @@ def flights_of(caps, side, first=None, extra=None):
         inner = a.get("s_inner", []) if side == "s" else []
         inner = (inner + [[]] * len(a[side]))[:len(a[side])]
         out.append({"case": name, "side": side, "msgs": a[side], "msgs2": b[side], "other": a[o], "from": (first or {}).get(name, 1), "inner": inner,
+                    "focus": int((extra or {}).get(name, {}).get("focus", 0)),
                     "recs": bool((extra or {}).get(name, {}).get("recs")), "post": int((extra or {}).get(name, {}).get("post", 0)),
                     "myrecs": a.get(side + "_recs", [])})
     return out
@@ -69,7 +70,7 @@ def flights_of(caps, side, first=None, extra=None):
 
 def rec_flights(caps):
     """MC input for C07: the first record a client wrote (a ClientHello record)"""
-    return [{"case": name, "side": "rec", "msgs": [a["rec0"]], "msgs2": [a["rec0"]], "other": [], "from": 1, "inner": [[]], "recs": False, "post": 0, "myrecs": []} for name, (a, b) in caps.items()]
+    return [{"case": name, "side": "rec", "msgs": [a["rec0"]], "msgs2": [a["rec0"]], "other": [], "from": 1, "inner": [[]], "recs": False, "post": 0, "myrecs": [], "focus": 0} for name, (a, b) in caps.items()]
 
 
 # ---------------------------------------------------------------- TLC: enumeration
@@ -260,8 +261,8 @@ def _connection_batch(ctx, pid, side, cases, classes, inserts, deadline_ms, btag
     classes = classes or ALL_CLASSES
     orig_cases = {c["name"]: c for c in cases}
     first = {c["name"]: c.get("from", 1) for c in cases}
-    extra = {c["name"]: {"recs": c.get("recs", False), "post": c.get("post", 0)} for c in cases}
-    cases = [{k: v for k, v in c.items() if k not in ("from", "recs", "post")} for c in cases]
+    extra = {c["name"]: {"recs": c.get("recs", False), "post": c.get("post", 0), "focus": c.get("focus", 0)} for c in cases}
+    cases = [{k: v for k, v in c.items() if k not in ("from", "recs", "post", "focus")} for c in cases]
     sut = "client" if side == "s" else "server"
     pki = mkpki(ctx)
     caps, skipped = capture(ctx, pki, cases)
